@@ -2,6 +2,7 @@ SPECIFICATION MSpec
 CONSTANTS
   Acc = {"a", "b"}
   Members = {"a", "b"}
+  MaxJoins = 0
   MaxMsgs = 2
   MaxFaults = 1
   MaxOpen = 1
